@@ -6,7 +6,7 @@
 
 namespace vs
 {
-constexpr int N_TYPED = 57;
+constexpr int N_TYPED = 58;
 
 static Plan gen_typed(uint64_t seed, int tier, char const* prof)
 {
@@ -283,7 +283,7 @@ void register_c04(std::vector<Profile>& v)
   p.gen = gen_c04;
   p.judge = judge_c04;
   p.rule =
-    "one case = one seeded plan: 1-3 threads x 3-60 statements drawn from a compiled pool of 57 typed call sites (8 of them through the other macro families: LOGV_, LOGJ_, _LIMIT, _LIMIT_EVERY_N, _TAGS, runtime metadata, LOGV_DYNAMIC; arithmetic extremes, NaN/inf, "
+    "one case = one seeded plan: 1-3 threads x 3-60 statements drawn from a compiled pool of 58 typed call sites (8 of them through the other macro families: LOGV_, LOGJ_, _LIMIT, _LIMIT_EVERY_N, _TAGS, runtime metadata, LOGV_DYNAMIC; arithmetic extremes, NaN/inf, "
     "enum, pointers, C strings incl. null/empty, char arrays incl. unterminated, std::string/string_view incl. embedded NUL and non-printable "
     "bytes, quill/std containers, optional, pair, tuple, chrono, filesystem path, nested containers, deferred- and direct-format user types, "
     "12 and 14 C strings sharing the size cache) through the real LOG_INFO macro; the expected text is fmtquill::format at the call site (+ "
@@ -309,7 +309,7 @@ void register_c11(std::vector<Profile>& v)
   p.gen = gen_c11;
   p.judge = judge_c11;
   p.rule =
-    "one case = one seeded plan over the same 57 typed call sites restricted by flag to the property's listed types (incl. exactly 12 C strings); "
+    "one case = one seeded plan over the same 58 typed call sites restricted by flag to the property's listed types (incl. exactly 12 C strings); "
     "interposed malloc/calloc/realloc/memalign/mmap are counted per simulated thread between entry to and return from each real LOG_INFO call; a "
     "count must be 0 unless it is the thread's first call or the thread's queue capacity changed across the call; every user formatter records the "
     "simulated thread it runs on (deferred: backend, direct: caller); distinct = distinct event hash; non-trivial = >=3 steady-state calls measured";
